@@ -35,7 +35,9 @@ def gen(rng, tier):
                                 'sdisc', 'sever_reconnect']),
            # the server greets every (re)connected client with an event that
            # travels right behind the CONNECT reply
-           'welcome': rng.random() < 0.5}
+           'welcome': rng.random() < 0.5,
+           # connect(namespace=...): the simple client's one namespace
+           'namespace': rng.choice(['/', '/', '/chat'])}
     consumer = []
     for _ in range(rng.randrange(3, 10)):
         k = rng.random()
@@ -122,6 +124,7 @@ def _run(case, cfg, w):
     v = V(PROP)
     rec = w.rec
     is_async = w.mode == 'async'
+    NS = cfg.get('namespace', '/')
     srv = w.add_server('s', async_handlers=True, ping_interval=5,
                        ping_timeout=3)
     got_by_server = []
@@ -136,8 +139,9 @@ def _run(case, cfg, w):
             return [('ret', ['pong', args[1] if len(args) > 1 else None])]
         return [('ret', None)]
     for evn in ('connect', 'disconnect', 'ping'):
-        srv.on(evn, w.make_handler(('s', 'func', '/', evn), splan,
-                                   coroutine=False))
+        srv.on(evn, namespace=NS,
+               handler=w.make_handler(('s', 'func', NS, evn), splan,
+                                      coroutine=False))
     fault = cfg['fault']
     attempts = 1 if fault == 'sever_final' else 0
     ckw = dict(reconnection=True, reconnection_delay=0.2,
@@ -152,7 +156,8 @@ def _run(case, cfg, w):
         made.append(cl)
         return cl
     sc.client_class = factory
-    h = w.call(sc.connect, 'http://s', transports=['websocket'])
+    h = w.call(sc.connect, 'http://s', transports=['websocket'],
+               namespace=NS)
     w.settle()
     if h.exc is not None or not sc.connected:
         return {'harness': 'simple client failed to connect: %r' % (h.exc,)}
@@ -178,7 +183,7 @@ def _run(case, cfg, w):
     # the instant the client starts processing the final end of the
     # connection, and every time an emit()/call() is released from its wait
     # for a reconnection (the moment it looks at the connection state)
-    _hs = made[0].handlers.get('/', {}) if made else {}
+    _hs = made[0].handlers.get(NS, {}) if made else {}
     _orig_final = _hs.get('__disconnect_final')
     if _orig_final is not None:
         if is_async:
@@ -212,7 +217,7 @@ def _run(case, cfg, w):
 
     # ---- producer ---------------------------------------------------------
     def cur_sid():
-        ns = srv.manager.rooms.get('/', {})
+        ns = srv.manager.rooms.get(NS, {})
         sids = [s for s in ns.get(None, {})]
         return sids[-1] if sids else None
 
@@ -224,7 +229,7 @@ def _run(case, cfg, w):
             for _ in range(n):
                 counter[0] += 1
                 rec.add('produce', k=counter[0])
-                w.api('s', 'emit', 'n', counter[0], to=sid)
+                w.api('s', 'emit', 'n', counter[0], to=sid, namespace=NS)
         elif kind == 'sever_reconnect':
             for cn in w.net.conns:
                 if not cn.severed:
@@ -239,7 +244,7 @@ def _run(case, cfg, w):
         elif kind == 'sdisc':
             sid = cur_sid()
             if sid:
-                w.api('s', 'disconnect', sid)
+                w.api('s', 'disconnect', sid, namespace=NS)
             rec.count('fault.server_disconnect')
 
     # ---- consumer ---------------------------------------------------------
